@@ -15,9 +15,13 @@ EXPLANATION = (
     "branch refinement, iterator ranges, range-argument ordering, callee preconditions on buffer parameters checked at "
     "call sites), or be listed in tables/c07_sites.json with a reviewed reason (TABLE-SAFE) or in KNOWN_FINDINGS.txt. A new "
     "site, or a site that stops being provable (e.g. a weakened length check), is a violation. Decides absence of panics at "
-    "these sites for all inputs relative to the library model. R07.2 (termination): every loop of the listed decoder / handler "
-    "functions that is not an iterator or event loop makes progress on every trip (cursor consumption, provably positive step "
-    "of a position variable, shrinking collection), else it is in the table with a reason. Allocation size is not decided; panics inside "
+    "these sites for all inputs relative to the library model. R07.2 (termination): every loop in scope that is not an iterator loop "
+    "makes progress (cursor consumption, provably positive step of a position variable, shrinking collection, cursor replaced by an "
+    "empty buffer, success arm of a crate decoder that consumes from its cursor) or suspends (poll of an await) on every trip, else it "
+    "is in the table with a reason; a trip that awaits something always ready counts as suspending. R07.3 (bloat, explicit requests): "
+    "every with_capacity / vec![_; n] / reserve / resize in scope is sized by a constant, a value of a <= 16-bit type, something linear "
+    "in the lengths of existing buffers, a value bounded by a dominating guard, or an application-chosen parameter. Growth of "
+    "long-lived tables across packets is not decided; panics inside "
     "dependencies are not decided; calls through trait objects and work handed to other tasks through channels are not "
     "followed by the closure.")
 ASSUMPTIONS = [
